@@ -203,6 +203,10 @@ def r3_classification(ctx, cls, order, unguarded_ok=()):
                 kind = k
         if kind:
             kinds.append((kind, t))
+    # (in the order in which they are tried: an attempt that dominates another comes first)
+    import functools as _ft
+    kinds.sort(key=_ft.cmp_to_key(lambda a_, b_: -1 if cfg.dominates(a_[1], b_[1]) and a_[1] is not b_[1] else
+                                  (1 if cfg.dominates(b_[1], a_[1]) and a_[1] is not b_[1] else (a_[1].lineno > b_[1].lineno) - (a_[1].lineno < b_[1].lineno))))
     got = [k for k, _ in kinds if k != "llvm"]
     ctx.check(got == list(order), "R3", "attempt order %s" % got, f.where(),
               "attempts are made in the order %s, the grammar alternatives overlap (x86 '.L1:' also parses as a directive, "
@@ -210,8 +214,7 @@ def r3_classification(ctx, cls, order, unguarded_ok=()):
     res = None
     for k, t in kinds:
         # later attempts guarded by `result is None`
-        facts = [(U(e), p) for e, p in C.facts_at(t)]
-        guarded = ("result is None", True) in facts
+        guarded = (C.CT("result is None"), True) in C.norm_facts(t)
         if k == order[0] or k == "llvm" or k in unguarded_ok:
             continue
         ctx.check(guarded, "R3", "%s attempt only if no earlier attempt matched" % k, f.where(t),
@@ -221,7 +224,7 @@ def r3_classification(ctx, cls, order, unguarded_ok=()):
     line_param = f.params()[1]
     flow = C.flow_of(f)
     for k, t in kinds:
-        extra = [(e, p) for e, p in C.facts_at(t) if not (U(e) == "result is None")]
+        extra = [(e, p) for e, p in C.norm_fact_nodes(t) if not (U(e) == "result is None")]
         for e, pol in extra:
             full = flow.subst(e)
             raw_pos = [n for n in ast.walk(full) if (
@@ -263,6 +266,11 @@ def r3_classification(ctx, cls, order, unguarded_ok=()):
         for a in sts:
             owner = [k for k, t in kinds if C.in_subtree(a, t) or (k == "instruction" and cfg.dominates(t, a) and any(
                 C.in_subtree(a, x) for x in ast.walk(f.node) if isinstance(x, ast.If) and C.in_subtree(t, x)))]
+            # ... or after the instruction attempt on a path only taken when nothing else matched (guard clause form)
+            if kind == "instruction" and kind not in owner:
+                it_ = [t for k, t in kinds if k == "instruction"]
+                if it_ and cfg.dominates(it_[0], a) and (C.CT("result is None"), True) in C.norm_facts(a):
+                    owner.append("instruction")
             if kind not in owner:
                 okk = False
         ctx.check(okk, "R3", "%s is set only by the %s branch" % (attr, kind), f.where(),
